@@ -53,6 +53,13 @@ def run_case(c):
             x = Note().from_int(i)
             return {"n": nm(x.name), "o": integer(x.octave), "int": integer(int(x)), "ctor": integer(int(Note(i)))}
         R.append(call("from_int", {"i": i}, f))
+        # the same on a note object that has been used before (its value read, compared, set by name)
+        def g():
+            x = Note("C", 4)
+            int(x); x == Note("D", 2); x.set_note("E", 5); int(x)
+            x.from_int(i)
+            return {"n": nm(x.name), "o": integer(x.octave), "int": integer(int(x)), "ctor": integer(int(Note(x)))}
+        R.append(call("from_int", {"i": i, "object": "used before"}, g))
     elif k == "pair":
         a, b = c["a"], c["b"]
         def f():
@@ -84,12 +91,29 @@ def run_case(c):
             x = Note("C", 4); x.set_velocity(v); return x.velocity
         R.append(call("velocity", {"v": v, "via": "set_velocity"}, f1, integer))
         R.append(call("velocity", {"v": v, "via": "constructor"}, lambda: Note("C", 4, velocity=v).velocity, integer))
+        # every other way of giving a velocity: set_note with the keyword (plain and Name-octave text), the dynamics dictionary
+        def vs(fn):
+            def g():
+                x = Note("D", 3); fn(x); return x.velocity
+            return g
+        R.append(call("velocity", {"v": v, "via": "set_note keyword"}, vs(lambda x: x.set_note("C", 4, velocity=v)), integer))
+        R.append(call("velocity", {"v": v, "via": "set_note Name-octave text, keyword"}, vs(lambda x: x.set_note("C-4", velocity=v)), integer))
+        R.append(call("velocity", {"v": v, "via": "set_note dynamics"}, vs(lambda x: x.set_note("C", 4, {"velocity": v})), integer))
+        R.append(call("velocity", {"v": v, "via": "constructor dynamics"}, lambda: Note("C", 4, {"velocity": v}).velocity, integer))
     elif k == "channel":
         ch = c["c"]
         def f2():
             x = Note("C", 4); x.set_channel(ch); return x.channel
         R.append(call("channel", {"c": ch, "via": "set_channel"}, f2, integer))
         R.append(call("channel", {"c": ch, "via": "constructor"}, lambda: Note("C", 4, channel=ch).channel, integer))
+        def cs(fn):
+            def g():
+                x = Note("D", 3); fn(x); return x.channel
+            return g
+        R.append(call("channel", {"c": ch, "via": "set_note keyword"}, cs(lambda x: x.set_note("C", 4, channel=ch)), integer))
+        R.append(call("channel", {"c": ch, "via": "set_note Name-octave text, keyword"}, cs(lambda x: x.set_note("C-4", channel=ch)), integer))
+        R.append(call("channel", {"c": ch, "via": "set_note dynamics"}, cs(lambda x: x.set_note("C", 4, {"channel": ch})), integer))
+        R.append(call("channel", {"c": ch, "via": "constructor dynamics"}, lambda: Note("C", 4, {"channel": ch}).channel, integer))
     elif k == "badname":
         s = txt(c["s"])
         R.append(call("badname", {"s": list(s), "via": "constructor"}, lambda: proj(Note(s))))
@@ -106,6 +130,11 @@ def run_case(c):
         def g():
             x = Note(n, o); x.transpose(sh, True); x.transpose(sh, False); return proj(x)
         R.append(call("transpose_updown", {"n": list(n), "o": o, "sh": list(sh)}, g))
+        if o == 4:      # the same for a note that carries its own channel and velocity (they play no part in its pitch)
+            for up in (True, False):
+                def f2():
+                    x = Note(n, o, channel=9, velocity=31); x.transpose(sh, up); return proj(x)
+                R.append(call("transpose", {"n": list(n), "o": o, "sh": list(sh), "up": up, "channel": 9, "velocity": 31}, f2))
     elif k == "octave":
         o, d, n = c["o"], c["diff"], txt(c["n"])
         def h():
